@@ -4,6 +4,7 @@
 -/
 import MotoModel.Proofs.DiskReadProps
 import MotoModel.Proofs.DiskByte0
+import MotoModel.Proofs.DiskRender
 namespace Moto.C07
 open Moto Moto.Disk
 
@@ -25,5 +26,40 @@ theorem wellformed_image_extracted_exactly (fl : Flavour) (verbose : Bool) (arch
   intro k hk dir
   obtain ⟨bat, own, inv⟩ := h.2 k hk
   exact ⟨_, spec_files_inv inv, sideFiles_eq_spec inv dir⟩
+
+/-- **C07 (reader ∘ independent writer)**: for every well-formed description of a side — files in
+    any catalog slots, chains in any allocation order and fragmentation (duplicate-free, inside the
+    side, off the reserved blocks, pairwise disjoint), 1..8 sectors in the last block, 0..255 bytes
+    in the last sector, deleted entries and extra reserved blocks anywhere, any filler bytes — the
+    side laid out by the independent writer `Spec.Dos.render` is a consistent file system, and the
+    tool's reader finds in it exactly the files of the description, each with exactly its content. -/
+theorem independent_writer_is_read_exactly (a : Spec.Dos.ASide) (h : WFSideDesc a)
+    (hsizes : ∀ f ∈ a.files, 255 * (8 * (f.chain.length - 1) + f.lastSectors - 1) + f.lastBytes = f.content.length) :
+    SideOk (Spec.Dos.render a)
+    ∧ (∀ f ∈ a.files, fileAt (Spec.Dos.render a) f.slot = some (recordOfBytes (Spec.Dos.entryOf a.recPad f), f.content))
+    ∧ (∀ j, j < 112 → (∀ f ∈ a.files, f.slot ≠ j) → fileAt (Spec.Dos.render a) j = none) := by
+  have inv := render_inv a h
+  refine ⟨⟨_, _, inv⟩, ?_, ?_⟩
+  · intro f hf
+    have hw := h.files f hf
+    rw [fileAt_inv inv f.slot hw.slot]
+    have hlive : liveB (slotData (Spec.Dos.render a) f.slot) = true := by
+      rw [liveB_iff, render_slotData a h f.slot hw.slot, catalogOf_file a h f hf]
+      have := entryOf_0 a f hw
+      exact ⟨by rw [this]; exact hw.first.2, by rw [this]; exact hw.first.1⟩
+    unfold entryAt
+    rw [if_pos hlive]
+    simp only [Option.map_some]
+    have hc := render_content a h f hf (hsizes f hf)
+    unfold fileOf at hc
+    rw [hc, render_slotData a h f.slot hw.slot, catalogOf_file a h f hf]
+  · intro j hj hno
+    rw [fileAt_inv inv j hj]
+    unfold entryAt
+    rw [if_neg]
+    · rfl
+    · intro hl
+      obtain ⟨f, hf, hs, _⟩ := render_live a h j hj ((liveB_iff _).mp hl)
+      exact hno f hf hs
 
 end Moto.C07
